@@ -23,7 +23,8 @@ CONSTANTS
   Paces = {"burst"}
   DevSpin = @@DEVSPIN@@
   DevNoUnblock = @@DEVNOUNBLOCK@@
+  DevAliasFlush = @@ALIAS@@
 SPECIFICATION USpec
-INVARIANTS UTypeOK UDatagrams UComplete UCompleteAny UEncoded UFlushed UBuf
+INVARIANTS UTypeOK UDatagrams UComplete UCompleteAny UEncoded UFlushed UMutex UBuf
 PROPERTIES UDelivMonotone UEventuallyFlushed @@LIVE@@
 CHECK_DEADLOCK FALSE
